@@ -210,7 +210,8 @@ func (f *memFile) Type() os.FileMode {
 }
 
 func (f *memFile) Info() (os.FileInfo, error) {
-	return f.Stat()
+	// Info is the os.DirEntry method: like lstat on the OS file systems, it doesn't require an open file.
+	return f, nil
 }
 
 func (f *memFile) Slice(start int64, end int64) ([]byte, error) {
